@@ -409,3 +409,78 @@ func VerifC46_passthrough() {
 	vrt.Assert(!sc.closed, "C46/no-header-stays-open")
 	vrt.Assert(c.RemoteAddr() == net.Addr(sockRemoteC46) && c.VirtualAddr() == nil, "C46/no-header-socket-addresses")
 }
+
+// ---------------------------------------------------------------- long payloads (header byte limit)
+
+// drainBigC46 reads the application stream with a large buffer until an error.
+func drainBigC46(r io.Reader, max int) ([]byte, error) {
+	var got []byte
+	buf := make([]byte, 700)
+	for i := 0; i < max/700+8; i++ {
+		n, err := r.Read(buf)
+		got = append(got, buf[:n]...)
+		if err != nil {
+			return got, err
+		}
+	}
+	return got, nil
+}
+
+// VerifC46_longPayload: the byte limit that protects the header parser (maxProxyHeaderBytes, default
+// 2048) must not apply to the application stream: after every accepted header — v1 TCP4, v1 UNKNOWN in
+// both forms, v2 PROXY and v2 LOCAL — and on header-less connections a payload longer than the limit
+// reaches the application completely. Limits: the default (2048, payload 2112 bytes) and a configured
+// limit of 100 bytes (payload 160 bytes); payload = concrete pattern with symbolic first/middle/last byte.
+func VerifC46_longPayload() {
+	limit := int64(0)
+	payload := bytes.Repeat([]byte("0123456789abcdef"), 132)
+	if vrt.Choose("limit", 2) == 1 {
+		limit = 100
+		payload = payload[:160]
+	}
+	payload[0], payload[len(payload)/2], payload[len(payload)-1] = vrt.Byte("p0"), vrt.Byte("pm"), vrt.Byte("pz")
+	shape := vrt.Choose("shape", 6)
+	var head []byte
+	local := false
+	switch shape {
+	case 0:
+		head = []byte("PROXY UNKNOWN\r\n")
+	case 1:
+		head = []byte("PROXY UNKNOWN 1.2.3.4 5.6.7.8 1000 2000\r\n")
+	case 2:
+		head = []byte("PROXY TCP4 1.2.3.4 5.6.7.8 1000 2000\r\n")
+	case 3:
+		// v2 LOCAL, unspecified family, no address block
+		head = append(append([]byte{}, SIGV2...), 0x20, 0x00, 0, 0)
+		local = true
+	case 4:
+		head = append(append([]byte{}, SIGV2...), 0x21, 0x11, 0, 12, 1, 2, 3, 4, 5, 6, 7, 8, 0x03, 0xe8, 0x07, 0xd0)
+	case 5:
+		// no header at all; the first byte must not look like a signature
+		vrt.Assume(payload[0] != 'P' && payload[0] != '\r')
+	}
+	stream := append(append([]byte{}, head...), payload...)
+	split := 0
+	if len(head) > 0 && vrt.Choose("split", 2) == 1 {
+		split = len(head)
+	}
+	sc := &scriptConnC46{data: stream, split: split}
+	c := NewConn(sc, 0, limit)
+	got, rerr := drainBigC46(c, len(stream))
+	vrt.Assert(rerr == io.EOF, "C46/long-payload-clean-end")
+	vrt.Assert(!sc.closed, "C46/long-payload-stays-open")
+	if local {
+		// The LOCAL header itself is the known class C46-v2-local-header-not-skipped (3 header bytes
+		// stay in the stream); here only "every following byte arrives" is demanded.
+		vrt.Assert(len(got) >= len(payload), "C46/long-payload-local-complete")
+		if len(got) >= len(payload) {
+			vrt.Assert(bytes.Equal(got[len(got)-len(payload):], payload), "C46/long-payload-local-bytes")
+		}
+		return
+	}
+	vrt.Assert(len(got) == len(payload), "C46/long-payload-complete")
+	vrt.Assert(bytes.Equal(got, payload), "C46/long-payload-bytes-exact")
+	if shape == 0 || shape == 1 || shape == 5 {
+		vrt.Assert(c.RemoteAddr() == net.Addr(sockRemoteC46), "C46/long-payload-socket-address")
+	}
+}
